@@ -267,8 +267,17 @@ def binop(I, fr, op, l, r, node):
     elif isinstance(op, (ast.Mult, ast.MatMult)):
         alg = alg2(l, r, alg_mul)
         sign = sign_mul(l.sign, r.sign)
-        if l is r and isinstance(op, ast.Mult) and l.dtype != "complex":
-            sign = S_POS if l.sign in (S_POS, S_NEG) else (S_ZERO if l.sign == S_ZERO else S_NONNEG)  # x * x
+        pw = None
+        if isinstance(op, ast.Mult) and l.dtype != "complex" and r.dtype != "complex":
+            # integer powers of one and the same value written as repeated products: x*x, (x*x)*x, (x*x)*(x*x) ...
+            lb, lk = (l.note[1], l.note[2]) if (isinstance(l.note, tuple) and l.note[0] == "pw") else (l, 1)
+            rb, rk = (r.note[1], r.note[2]) if (isinstance(r.note, tuple) and r.note[0] == "pw") else (r, 1)
+            if lb is rb:
+                pw = ("pw", lb, lk + rk)
+                if (lk + rk) % 2 == 0:
+                    sign = S_POS if lb.sign in (S_POS, S_NEG) else (S_ZERO if lb.sign == S_ZERO else S_NONNEG)
+                else:
+                    sign = lb.sign
         if isinstance(op, ast.Mult):
             if rscalar and is_nonneg(r.sign) and l.mono:
                 mono = l.mono
@@ -378,6 +387,7 @@ def binop(I, fr, op, l, r, node):
         origin = frozenset(["lit"])
     else:
         origin = fresh_tok(I, fr, node)
+    pwnote = locals().get("pw")
     ext = None
     if isinstance(op, (ast.Mult, ast.Div)):
         if l.ext is not None and r.sign == S_POS and rscalar and r.ext is None:
@@ -392,7 +402,8 @@ def binop(I, fr, op, l, r, node):
     if sym is not None and kind != K_SCALAR:
         sym = None
     return AV(kind=kind, dtype=dtype, origin=origin, shape=shape, sym=sym, alg=alg, sign=sign, mono=mono,
-              const=c, expo=expo, tags=tags_of(l, r), indef=indef_of(l, r), f0=f0, ext=ext)
+              const=c, expo=expo, tags=tags_of(l, r), indef=indef_of(l, r), f0=f0, ext=ext,
+              note=pwnote if (pwnote is not None and c is _NOCONST) else None)
 
 
 def logical_and(a, b):
